@@ -98,3 +98,8 @@ def compare(rec):
         if x != "-" and x != y:
             return "model=%s impl=%s" % (rec["model"], rec["impl"])
     return None
+
+MANIFEST = {
+ "text": "failedImpl <-> FailedSpec for every (error, options, counts) is a Lean theorem (C08_verdict, C08_total, C08_verdict_fail, C08_share over Q, C08_cli, C08_no_failures_pass); the model is tied to run.Result.Failed by a differential check on every run (thresholds +-1, zero-iteration runs, random tuples) and the pre-repair model's counterexamples (division by zero, truncation) are kernel-checked and replayed on the code.",
+ "note": "Trusted: Lean kernel + propext/Classical.choice/Quot.sound; the hand-written model, tied by sampling; uint64 overflow and negative max-failures-rate outside the model.",
+ "technique": "Lean 4 theorem (decision logic stated outright) + model/implementation correspondence check"}
